@@ -9,6 +9,9 @@ for f in sorted(glob.glob(os.path.join(VERIF, "seeded", "*", "meta.json"))):
     tgt = m["breaks_property"]
     rep = m["detection"].get(tgt, {}).get("report", "")
     kind = "concrete replay" if "no-failing-input-found" not in rep and m["target_property_caught"] else ("no-failing-input-found" if m["target_property_caught"] else "MISSED")
+    if m.get("target_caught_at_first_run") is False and m["target_property_caught"]:
+        kind += " (not at the first run — after the strengthening recorded in the corrections log)"
+    first = re.sub(r"^[#*\s]+", "", first)
     line = re.search(r"line=(.*)$", rep)
     rows.append(f"| {m['id']} | {first} | {', '.join(m['caught_by']) or '—'} | {kind} | `{(line.group(1)[:60] if line else '')}` |")
 table = "| change | what it does (first line of the author's note) | reported by | target check | replay line (shrunk) |\n|---|---|---|---|---|\n" + "\n".join(rows)
